@@ -10,6 +10,7 @@ import (
 	"github.com/creachadair/jrpc2/jhttp"
 	"net/http/httptest"
 	"net/url"
+	"reflect"
 	"sort"
 	"strings"
 	"sync"
@@ -216,6 +217,100 @@ func asciiJSON(s string) string {
 	}
 	sb.WriteByte('"')
 	return sb.String()
+}
+
+// dynAssigner is safe for concurrent use and grows while the server runs.
+type dynAssigner struct {
+	mu       sync.Mutex
+	names    []string
+	entered  chan struct{}
+	gate     chan struct{}
+	assigned chan struct{}
+}
+
+func (d *dynAssigner) Names() []string {
+	d.mu.Lock()
+	defer d.mu.Unlock()
+	out := append([]string(nil), d.names...)
+	sort.Strings(out)
+	return out
+}
+
+func (d *dynAssigner) Assign(ctx context.Context, method string) jrpc2.Handler {
+	switch method {
+	case "register":
+		return func(ctx context.Context, req *jrpc2.Request) (any, error) {
+			var p struct{ Name string }
+			req.UnmarshalParams(&p)
+			d.entered <- struct{}{}
+			<-d.gate
+			d.mu.Lock()
+			d.names = append(d.names, p.Name)
+			d.mu.Unlock()
+			return nil, nil
+		}
+	case "probe":
+		select {
+		case d.assigned <- struct{}{}:
+		default:
+		}
+		return func(ctx context.Context, req *jrpc2.Request) (any, error) { return "probe", nil }
+	}
+	return nil
+}
+
+// dynPhase: the method list of rpc.serverInfo is the one in force when the
+// built-in runs - after the notifications of earlier messages have finished.
+// A notification registers a method with a concurrency-safe assigner (its
+// handler is held until the batch behind it has been assigned); the
+// rpc.serverInfo call that follows must list the new name.
+func dynPhase(name string) *engine.Verdict {
+	if name == "" || !utf8.ValidString(name) {
+		return nil
+	}
+	d := &dynAssigner{names: []string{"probe", "register"}, entered: make(chan struct{}, 1), gate: make(chan struct{}), assigned: make(chan struct{}, 1)}
+	cli, srvEnd := channel.Direct()
+	srv := jrpc2.NewServer(d, nil).Start(srvEnd)
+	defer func() {
+		cli.Close()
+		srv.Wait()
+	}()
+	pb, _ := json.Marshal(map[string]string{"name": name})
+	if err := cli.Send([]byte(fmt.Sprintf(`{"jsonrpc":"2.0","method":"register","params":%s}`, pb))); err != nil {
+		v := engine.Failf("C17/raw", "send: %v", err)
+		return &v
+	}
+	<-d.entered
+	if err := cli.Send([]byte(`[{"jsonrpc":"2.0","id":1,"method":"rpc.serverInfo"},{"jsonrpc":"2.0","id":2,"method":"probe"}]`)); err != nil {
+		v := engine.Failf("C17/raw", "send: %v", err)
+		return &v
+	}
+	<-d.assigned // the batch has been looked up; it now waits for the notification
+	close(d.gate)
+	rsp, err := cli.Recv()
+	var got []struct {
+		ID     int
+		Result json.RawMessage
+	}
+	if err != nil || json.Unmarshal(rsp, &got) != nil {
+		v := engine.Failf("C17/raw", "reply %s: %v", rsp, err)
+		return &v
+	}
+	for _, g := range got {
+		if g.ID != 1 {
+			continue
+		}
+		var info struct{ Methods []string }
+		json.Unmarshal(g.Result, &info)
+		want := d.Names()
+		if !reflect.DeepEqual(info.Methods, want) {
+			v := engine.Failf("C17/serverinfo-methods", "a notification registered method %q with the assigner and had returned before rpc.serverInfo (sent after it) ran; rpc.serverInfo lists %q, the assigner's Names() are %q", name, info.Methods, want)
+			return &v
+		}
+		return nil
+	}
+	v := engine.Failf("C17/raw", "no reply for rpc.serverInfo in %s", rsp)
+	return &v
 }
 
 func rawPhase(w *world, c Case, root jrpc2.Assigner, start time.Time) *engine.Verdict {
@@ -551,6 +646,11 @@ func run(_ *testing.T, c Case) engine.Verdict {
 	// name that is dispatched.
 	if p := rawPhase(w, c, root, start); p != nil {
 		return *p
+	}
+	if !c.DisableBuiltin && len(c.Names) > 0 {
+		if p := dynPhase(c.Names[0]); p != nil {
+			return *p
+		}
 	}
 	// The same assigner behind a Bridge whose GET side is a Getter
 	// (BridgeOptions.ParseGETRequest), on a push-enabled server: the dispatch
